@@ -54,7 +54,7 @@ NUMS_ODD = ['1.5', '0.5', '.5', '1.', '0.', '1e3', '1E3', '1e+3', '1e-3', '1.5e1
 STRS_COMMON = ['"s"', "'s'", '""', "''", '"a b"', "'use strict'"]
 STRS_ODD = ['"\\n"', "'\\''", '"\\""', '"\\\\"', "'\\x41'", '"\\u0041"', "'\\0'", '"\\07"', "'\\101'",
             '"a\\\nb"', "'a\\\r\nb'", '"a\\\rb"', u'"a\\ b"', u'"\u00e9"', u'"\u65e5\u672c"', '"//"', "'/*'", '"*/"',
-            '"\'"', "'\"'", '"\\b\\f\\r\\t\\v"', "'</script>'", '"\\a\\q"', '"a\\\n"', "';'", '"}"', "'{'"]
+            '"\'"', "'\"'", '"\\b\\f\\r\\t\\v"', "'</script>'", '"\\a\\q"', '"a\\\n"', "';'", '"}"', "'{'", u'"a\\\u2028b"', u"'\\\u2029'"]
 REGEX_COMMON = ['/re/', '/a/g', '/x/i']
 REGEX_ODD = ['/[/]/', '/\\//', '/[\\]]/', '/a/gim', '/=/', '/=a/', '/ /', '/\\\\/', '/[a-z]+/', '/(?:x)/',
              '/a|b/', '/\\d{2,3}/', '/[^/]*/g', "/'/", '/"/', '/a*/', '/\\*/', '/.+?/']
@@ -638,7 +638,7 @@ LT_BASIC = ['\n']
 LT_ALL = ['\n', '\r', '\r\n', u'\u2028', u'\u2029', '\n\n', ' \n  ', u'\u2028\n']
 LT_NO_LSPS = ['\n', '\r', '\r\n', '\n\n', ' \n  ', '\r\n\t']
 COMMENTS_INLINE = ['/*c*/', '/**/', '/* a * b / */', u'/*\u00e9*/', '/*//*/']
-COMMENTS_ML = ['/*c\nc*/', '/*\n*/', '/*\r\n * x\r\n */']
+COMMENTS_ML = ['/*c\nc*/', '/*\n*/', '/*\r\n * x\r\n */', u'/*a\u2028b*/', u'/*\u2029*/', '/*\r*/']
 COMMENTS_LINE = ['//c\n', '//\n', '// a /* b\n', u'//\u00e9\r\n', '//x\r']
 
 _join_cache = {}
@@ -779,6 +779,8 @@ def render(draw, toks, layout, drop=None, seps_out=None):
                         sep = (' ' if draw(st.booleans()) else '') + sep
                     elif layout.comments and not nolt:
                         sep = COMMENTS_ML[draw(st.integers(0, len(COMMENTS_ML) - 1))]
+                        if not layout.lsps and (u'\u2028' in sep or u'\u2029' in sep):
+                            sep = '/*c\nc*/'
                     else:
                         sep = ' '
                 # a separator that ends with `/`... cannot fuse: all comment separators end in */ or LT
